@@ -15,7 +15,7 @@ from ..model import (walk, dotted, call_name, kwarg, unparse, short, UNKNOWN,
 from ..cfg import cfg_of
 from ..flow import Deps, Exploration
 from .. import idioms as I
-from .c14 import Interp, UNK
+from .c14 import Interp, UNK, truth, thaw
 
 SESS = ('session.py', 'Session')
 COMP = 'utils/component.py'
@@ -825,6 +825,550 @@ def r16_3(prog, rep, rid='R16.3', tier='quick'):
 
 
 # ------------------------------------------------------------------------------
+# R16.4 / R16.5: who is a side, and who wires it
+#
+# The forwarder table (R16.1) is only a proof of "exactly once per other side"
+# if (a) two different sides never compare equal on `self._module` and (b) each
+# side has exactly one forwarder per directed (channel, PROXY_ twin) pair.
+# Both are facts about Session.__init__ specialised to a session role; they are
+# decided by a value interpretation of __init__ (and of every method of the
+# class from which a wiring call is reachable, entered at its call sites) once
+# per role and per side.
+#
+ENV_PILOT_ID = 'RP_PILOT_ID'        # exported per pilot by bootstrap_0.sh
+CFG_PILOT_ID = 'pid'                # agent config item holding the pilot id
+SESSION_ID   = 'rp.session.0000'    # the session id is shared by all sides
+PILOTS       = ('pilot.0000', 'pilot.0001')
+
+# how many sessions of a role exist on one side (class comment / docstring of
+# Session; agent_0.py, agent_n.py, client.py, radical-pilot-component):
+ROLES = {
+    '_PRIMARY': ('once', 'client', 'the session of the client application'),
+    '_AGENT_0': ('once', 'pilot', 'the first session of a pilot agent'),
+    '_AGENT_N': ('many', 'pilot', 'one per sub-agent: zero or more per pilot, '
+                 'all connected to the registry and bridges of the agent_0 of '
+                 'that pilot and started with its RP_PILOT_ID'),
+    '_CLIENT' : ('many', 'both', 'any number of client handles per side'),
+    '_DEFAULT': ('many', 'both', 'one per component process: any number per '
+                 'side'),
+}
+
+_ENV_GET = ('os.environ.get', 'os.getenv', 'environ.get', 'getenv')
+_ENV_MAP = ('os.environ', 'environ')
+
+
+def _self_attr_root(t):
+    """attribute name X of the `self.X` an lvalue path starts with"""
+    while isinstance(t, (ast.Subscript, ast.Attribute)):
+        if isinstance(t, ast.Attribute) and isinstance(t.value, ast.Name) \
+                and t.value.id == 'self':
+            return t.attr
+        t = t.value
+    return None
+
+
+def _stable_attrs(cls, entry):
+    """attributes of self that are written in `entry` (the constructor) and
+    nowhere else in the class: their value in the interpreter's environment
+    cannot be changed behind its back by a call that is not entered"""
+    writers = {}
+    for mname, f in cls.methods.items():
+        for kind, target, stmt in I.stores(f.node, nested=True):
+            a = _self_attr_root(target)
+            if a is not None:
+                writers.setdefault(a, set()).add(mname)
+    return {a for a, ms in writers.items() if ms == {entry.name}}
+
+
+def _wiring_reach(prog, cls, cw):
+    """methods of the class (other than cw) from which a call of cw is
+    reachable through calls on self"""
+    callees = {}
+    for mname, f in cls.methods.items():
+        out = set()
+        for c in calls_in(f.node):
+            g = prog.resolve_call(f, c, cls)
+            if g is not None and g.cls is cls:
+                out.add(g.name)
+        callees[mname] = out
+    reach = {m for m, out in callees.items() if cw.name in out}
+    changed = True
+    while changed:
+        changed = False
+        for m, out in callees.items():
+            if m not in reach and out & reach:
+                reach.add(m)
+                changed = True
+    reach.discard(cw.name)
+    return reach
+
+
+class SideInterp(Interp):
+    """Interp of Session.__init__ for one role on one side.
+
+    * the environment lookup of the pilot id answers with the side's pilot id
+      (unset on the client side); every other variable is unknown;
+    * `assert` with a decided false test ends the path;
+    * a call that is not entered may change any attribute of self that has a
+      writer outside the constructor: those are forgotten after every
+      statement with a call;
+    * every method from which a wiring call is reachable is entered; the
+      chain of entered calls is kept for the messages."""
+
+    def __init__(self, prog, cls, cw, reach, stable, pid, **kw):
+        Interp.__init__(self, prog, cls, track=('self._module',), depth=8,
+                        **kw)
+        self.cw = cw
+        self.reach = reach
+        self.stable = stable
+        self.pid = pid
+        self.stack = []
+        self.sites = {}
+
+    # -- environment of the process ------------------------------------------
+    def _is_env(self, e):
+        return dotted(e) in _ENV_MAP
+
+    def ev(self, f, e, env):
+        if isinstance(e, ast.Call) and call_name(e) in _ENV_GET and e.args:
+            key = Interp.ev(self, f, e.args[0], env)
+            if key == ENV_PILOT_ID:
+                if self.pid is not None:
+                    return self.pid
+                d = kwarg(e, 'default', 1)
+                return None if d is None else self.ev(f, d, env)
+            return UNK
+        if isinstance(e, ast.Subscript) and self._is_env(e.value) and \
+                not isinstance(e.slice, ast.Slice):
+            key = Interp.ev(self, f, e.slice, env)
+            if key == ENV_PILOT_ID and self.pid is not None:
+                return self.pid
+            return UNK
+        if isinstance(e, ast.Compare) and len(e.ops) == 1 and \
+                isinstance(e.ops[0], (ast.In, ast.NotIn)) and \
+                self._is_env(e.comparators[0]):
+            key = Interp.ev(self, f, e.left, env)
+            if key == ENV_PILOT_ID:
+                return (self.pid is not None) == isinstance(e.ops[0], ast.In)
+            return UNK
+        return Interp.ev(self, f, e, env)
+
+    # -- which calls are entered ---------------------------------------------
+    def may_write(self, f, depth=None, _seen=None):
+        if f.cls is self.cls and f.name in self.reach:
+            return True
+        return Interp.may_write(self, f, depth, _seen)
+
+    def _inline(self, f, call, g, env, depth):
+        if depth <= 0:
+            raise AnalysisError('UNRECOGNISED-IDIOM %s: call chain to the '
+                                'wiring / to the side identity is deeper than '
+                                'the interpretation follows (%s)'
+                                % (f.where, ' > '.join(
+                                    x[2].qual for x in self.stack)))
+        self.stack.append((f, call, g))
+        try:
+            return Interp._inline(self, f, call, g, env, depth)
+        finally:
+            self.stack.pop()
+
+    # -- statements -------------------------------------------------------------
+    def effects(self, f, node, edge, env, depth):
+        a = node.ast
+        if node.kind == 'stmt' and isinstance(a, ast.Assert) and \
+                truth(self.ev(f, a.test, env)) is False:
+            return []
+        if node.kind == 'stmt' and a is not None and f.cls is self.cls and \
+                not isinstance(a, (ast.FunctionDef, ast.ClassDef,
+                                   ast.AsyncFunctionDef)) and \
+                (not self.stack or f.name in self.reach):
+            # on the way to the wiring every call must be a direct one: a
+            # call through a local, a table or getattr() could be the wiring
+            local = None
+            for c in calls_in(a):
+                fn = c.func
+                ind = isinstance(fn, (ast.Call, ast.Subscript, ast.IfExp,
+                                      ast.BoolOp))
+                if isinstance(fn, ast.Name):
+                    if local is None:
+                        from ..flow import assigned_names
+                        local = set(assigned_names(f.node)) | \
+                            (set(f.params) - {'self', 'cls'})
+                    ind = fn.id in local
+                if ind:
+                    raise AnalysisError(
+                        'UNRECOGNISED-IDIOM %s: indirect call %s on the way '
+                        'to the proxy wiring: the callee is not decided'
+                        % (f.where, short(c)))
+        outs = Interp.effects(self, f, node, edge, env, depth)
+        if node.kind == 'stmt' and a is not None and \
+                not isinstance(a, (ast.FunctionDef, ast.ClassDef,
+                                   ast.AsyncFunctionDef)):
+            # what a call that was not entered may have changed (objects
+            # below self are assumed not to hold a reference back to self)
+            everything, below = False, set()
+            for c in calls_in(a):
+                if any(isinstance(x, ast.Name) and x.id == 'self'
+                       for x in list(c.args) + [k.value for k in c.keywords]):
+                    everything = True
+                fn = c.func
+                if isinstance(fn, ast.Attribute):
+                    root = _self_attr_root(fn.value)
+                    if isinstance(fn.value, ast.Name) and \
+                            fn.value.id == 'self':
+                        everything = True
+                    elif isinstance(fn.value, ast.Call) and \
+                            dotted(fn.value.func) == 'super':
+                        everything = True
+                    elif root is not None:
+                        below.add(root)
+            if everything or below:
+                for e in outs:
+                    for k in list(e):
+                        if not k.startswith('self.') or \
+                                k.startswith('self.@') or \
+                                k.rstrip('@') in self.track:
+                            continue
+                        attr = k[5:].split('.')[0].split('[')[0]
+                        if attr in self.stable:
+                            continue
+                        if everything or attr in below:
+                            del e[k]
+        return outs
+
+
+def _side_runs(prog, rep):
+    """{(role name, pid): (exits, interp)}; exits = [(identity, writer text,
+    wires)], wires = ((src, tgt, from_proxy, chain key), ...) in call order"""
+    cw, fwd, sub, pub, pubvar = forwarder(prog)
+    sess = prog.cls(*SESS)
+    init = sess.methods.get('__init__')
+    if init is None:
+        raise AnalysisError('anchor Session.__init__ not found')
+    rep.saw(init)
+    if '_role' not in init.params or 'uid' not in init.params:
+        raise AnalysisError('UNRECOGNISED-IDIOM %s: parameters _role / uid '
+                            'missing' % init.where)
+    roles = {}
+    for nm, e in sess.consts.items():
+        v = prog.fold(sess.module, e, sess)
+        if isinstance(v, str) and nm.isupper():
+            roles[nm] = v
+    for nm in ('_PRIMARY', '_AGENT_0'):
+        if nm not in roles:
+            raise AnalysisError('anchor role constant Session.%s not found'
+                                % nm)
+    reach = _wiring_reach(prog, sess, cw)
+    stable = _stable_attrs(sess, init)
+    cwp = [p for p in cw.params if p != 'self']
+    runs = {}
+    states = 0
+    for nm, val in sorted(roles.items()):
+        side = ROLES.get(nm, (None, 'both', ''))[1]
+        pids = {'client': (None,), 'pilot': PILOTS,
+                'both': (None, PILOTS[0])}[side]
+        for pid in pids:
+            inputs = {}
+            if pid is not None:
+                for base in ('cfg', 'self._cfg', 'self.cfg'):
+                    inputs['%s.%s' % (base, CFG_PILOT_ID)] = pid
+                    inputs['%s[%r]' % (base, CFG_PILOT_ID)] = pid
+
+            def observe(fn, node, env):
+                if node.kind != 'stmt' or node.ast is None or \
+                        isinstance(node.ast, (ast.FunctionDef, ast.ClassDef)):
+                    return
+                for c in calls_in(node.ast):
+                    if not isinstance(c.func, ast.Attribute) or \
+                            c.func.attr != cw.name or \
+                            ip.prog.resolve_call(fn, c, sess) is not cw:
+                        continue
+                    vals = []
+                    for i, pn in enumerate(cwp):
+                        e = kwarg(c, pn, i)
+                        vals.append(ip.ev(fn, e, env) if e is not None
+                                    else UNK)
+                    if any(v is UNK or not isinstance(v, (str, bool))
+                           for v in vals):
+                        raise AnalysisError(
+                            'UNRECOGNISED-IDIOM %s: arguments of %s are not '
+                            'evaluable' % (fn.where, short(c)))
+                    chain = ' > '.join([x[2].qual for x in ip.stack] or
+                                       [fn.qual])
+                    ip.sites.setdefault(chain, (list(ip.stack), fn, c))
+                    env['self.@wires'] = tuple(env.get('self.@wires', ())) \
+                        + (tuple(vals) + (chain,),)
+
+            ip = SideInterp(prog, sess, cw, reach, stable, pid,
+                            inputs=inputs, observe=observe)
+            exits = ip.run(init, {'_role': val, 'uid': SESSION_ID})
+            states += ip.states
+            out = []
+            for fe in exits:
+                d = {k: v for k, v in fe}
+                w = thaw(d.get('self.@wires', ('__T', ())))
+                out.append((thaw(d['self._module']) if 'self._module' in d
+                            else '<unset>', d.get('self._module@', ''),
+                            tuple(tuple(x) for x in w)))
+            runs[(nm, pid)] = (out, ip)
+    rep.stat('side_interp_states', states)
+    return cw, init, roles, runs
+
+
+def _ids(exits):
+    return sorted({i for i, _, _ in exits}, key=repr)
+
+
+def r16_4(prog, rep, sides, rid='R16.4'):
+    rep.rule(rid, 'the side identity Session._module (stamped into '
+             "msg['origin'] and compared by the forwarders) of a session that "
+             'wires a pilot to the proxy differs between two pilots and from '
+             'the identity of the client session', minimum=2)
+    cw, init, roles, runs = sides
+    sess = prog.cls(*SESS)
+    ea, ipa = runs[('_AGENT_0', PILOTS[0])]
+    eb, ipb = runs[('_AGENT_0', PILOTS[1])]
+    ec, ipc = runs[('_PRIMARY', None)]
+    if not ea or not eb or not ec:
+        # (R16.5 reports a role whose construction never completes)
+        raise AnalysisError('%s: no path through the construction of a %s '
+                            'session completes: its side identity is not '
+                            'defined' % (init.where, 'primary' if not ec
+                                         else 'agent_0'))
+    ia, ib, ic = _ids(ea), _ids(eb), _ids(ec)
+    for who, ids in (('agent_0 session', ia + ib), ('primary session', ic)):
+        if any(i is UNK or i == '<unset>' or not isinstance(i, (str, int))
+               and i is not None for i in ids):
+            raise AnalysisError(
+                'UNRECOGNISED-IDIOM %s: the value of self._module of a %s is '
+                'not evaluable (%s): it is computed from something else than '
+                'constants, the session role / id, the %s environment '
+                'variable and the `%s` config item'
+                % (init.where, who, ', '.join(sorted({repr(i) for i in ids})),
+                   ENV_PILOT_ID, CFG_PILOT_ID))
+    wloc = None
+    for f in sess.methods.values():
+        for kind, t, stmt in I.stores(f.node, nested=True):
+            if unparse(t) == 'self._module' and wloc is None:
+                wloc = f.loc(stmt)
+    how = sorted({w for _, w, _ in ea + eb if w})
+    common = [i for i in ia if i in ib]
+    rep.check(not common, rid, init, 'agent_0 sessions of %s and %s get '
+              'different side identities' % PILOTS,
+              construct='identity: pilot / pilot',
+              message='Session.__init__: the side identity self._module of '
+              'the agent_0 session is %r for %s and for %s (%s): it does not '
+              'depend on the pilot id (%s in the environment / cfg.%s), so '
+              'all pilots of a session are one "side" for the forwarders: '
+              'the proxy->local forwarder of every pilot discards the '
+              'forwarded messages of all other pilots as its own '
+              '(msg[\'origin\'] == self._module)'
+              % (common[0] if common else None, PILOTS[0], PILOTS[1],
+                 '; '.join(how) or 'no assignment seen', ENV_PILOT_ID,
+                 CFG_PILOT_ID), loc=wloc or init.loc(),
+              history="one client, pilots %s and %s: %s publishes {'cmd': "
+              "..., 'fwd': True} on its control or state pubsub; the message "
+              "is tagged origin=%r, crosses the proxy, reaches the client "
+              "once, and is dropped by the proxy->local forwarder of %s: "
+              "delivered 0 times there (expected 1); same in the other "
+              "direction" % (PILOTS[0], PILOTS[1], PILOTS[0],
+                             common[0] if common else None, PILOTS[1]))
+    clash = [i for i in ic if i in ia + ib]
+    rep.check(not clash, rid, init, 'the primary session and the agent_0 '
+              'sessions get different side identities',
+              construct='identity: client / pilot',
+              message='Session.__init__: the side identity self._module of '
+              'the primary (client) session is %r, which is also the identity '
+              'of the agent_0 session of pilot %s: client and that pilot are '
+              'one "side" for the forwarders, each discards the forwarded '
+              'messages of the other as its own'
+              % (clash[0] if clash else None,
+                 PILOTS[0] if clash and clash[0] in ia else PILOTS[1]),
+              loc=wloc or init.loc(),
+              history="client publishes cancel_tasks with fwd=True: tagged "
+              "origin=%r; the proxy->local forwarder of the pilot with the "
+              "same identity drops it: the tasks on that pilot keep running"
+              % (clash[0] if clash else None))
+
+
+def _blame(ip, chain, init):
+    frames, fn, call = ip.sites[chain]
+    if len(frames) >= 2:
+        f = frames[0][2]
+        return f, f.loc(frames[1][1])
+    if frames:
+        return init, init.loc(frames[0][1])
+    return fn, fn.loc(call)
+
+
+def r16_5(prog, rep, sides, rid='R16.5'):
+    rep.rule(rid, 'each side has exactly one forwarder per directed (pubsub, '
+             'PROXY_ twin) pair: the pairs are wired exactly once on every '
+             'path through the construction of a primary / agent_0 session '
+             '(one per side), never by a session role that exists more than '
+             'once per side, and by nobody outside Session', minimum=16)
+    cw, init, roles, runs = sides
+    cm = prog.module(CONST)
+    proxy_vals = {}
+    for nm in cm.assigns:
+        v = prog.fold(cm, ast.Name(id=nm, ctx=ast.Load()))
+        if isinstance(v, str) and nm.isupper():
+            proxy_vals.setdefault(v, nm)
+
+    def is_proxy(v):
+        return proxy_vals.get(v, '').startswith('PROXY_')
+
+    def nm(v):
+        return proxy_vals.get(v, repr(v))
+    need = []
+    for ch in ('CONTROL_PUBSUB', 'STATE_PUBSUB'):
+        a, b = prog.const(CONST, ch), prog.const(CONST, 'PROXY_' + ch)
+        need += [(a, b), (b, a)]
+    wired_once = set(need)
+    for rname in sorted(roles):
+        mult, side, descr = ROLES.get(rname, (None, 'both', ''))
+        label = roles[rname]
+        for (rn, pid), (exits, ip) in sorted(runs.items(), key=repr):
+            if rn != rname:
+                continue
+            pw = [[w for w in ws if is_proxy(w[0]) or is_proxy(w[1])]
+                  for _, _, ws in exits]
+            if mult == 'once':
+                if pid == PILOTS[1]:
+                    continue
+                rep.check(bool(exits), rid, init, 'construction of a %s '
+                          'session completes' % label,
+                          construct='role %s: constructed' % label,
+                          message='Session.__init__: no path through the '
+                          'construction of a %s session completes (an '
+                          'assertion on the role, or a raise, stops every '
+                          'path): this side is never wired to the proxy'
+                          % label, loc=init.loc(),
+                          history='a %s session is created: it raises before '
+                          'the forwarders exist; no forwarded message reaches '
+                          'or leaves this side' % label)
+                if not exits:
+                    continue
+                seen_pairs = {(w[0], w[1]) for ws in pw for w in ws}
+                for s, t in need + sorted(seen_pairs - set(need)):
+                    counts = sorted({sum(1 for w in ws if (w[0], w[1]) ==
+                                         (s, t)) for ws in pw})
+                    chains = sorted({w[3] for ws in pw for w in ws
+                                     if (w[0], w[1]) == (s, t)})
+                    if chains:
+                        where, loc = _blame(ip, chains[-1], init)
+                    else:
+                        where, loc = init, init.loc()
+                    if counts == [1]:
+                        rep.ok(rid, where, '%s session: %s -> %s wired '
+                               'exactly once' % (label, nm(s), nm(t)), loc)
+                        continue
+                    many = counts[-1] > 1
+                    rep.bad(rid, where, 'role %s: %s -> %s' % (
+                        label, nm(s), nm(t)),
+                        'Session.__init__ for role %s: %s is wired to %s %s '
+                        '(%s): %s' % (
+                            label, nm(s), nm(t),
+                            '%d times on some path' % counts[-1] if many
+                            else 'on no path' if counts == [0]
+                            else 'on some paths only',
+                            '; '.join(chains) or 'no wiring call reached',
+                            'every message is put on the target once per '
+                            'forwarder: delivered %d times' % counts[-1]
+                            if many else 'forwarded messages never %s this '
+                            'side' % ('leave' if is_proxy(t) else 'reach')),
+                        loc, history='%s publishes a message with fwd=True: '
+                        '%s' % ('this side' if is_proxy(t) else
+                                'another side', 'every other side receives '
+                                'it %d times' % counts[-1] if many and
+                                is_proxy(t) else 'this side receives it %d '
+                                'times' % counts[-1] if many else
+                                'it is never delivered across the proxy'))
+                for ws in pw:
+                    for w in ws:
+                        wired_once.add((w[0], w[1]))
+                continue
+            chains = sorted({w[3] for ws in pw for w in ws})
+            if chains and mult is None:
+                raise AnalysisError(
+                    'UNRECOGNISED-IDIOM %s: a session of role %s (%s) wires '
+                    'pubsubs to the proxy; the rule does not know how many '
+                    'sessions of that role exist per side'
+                    % (init.where, rname, label))
+            if not chains:
+                rep.ok(rid, init, '%s session (%s): wires nothing to the '
+                       'proxy' % (label, 'pilot side' if pid else
+                                  'client side'), init.loc())
+                continue
+            where, loc = _blame(ip, chains[0], init)
+            wires = sorted({'%s -> %s' % (nm(w[0]), nm(w[1]))
+                            for ws in pw for w in ws})
+            rep.bad(rid, where, 'role %s wires' % label,
+                    'Session.__init__ for role %s reaches the proxy wiring '
+                    '(%s) and creates forwarders %s. %s; such a session uses '
+                    'the bridges and the side identity of the side it lives '
+                    'on, so the side has one more identical forwarder pair '
+                    'per such session: every message with the forward flag '
+                    'published on this side is put on the proxy once per '
+                    'pair, and every message from the proxy is published on '
+                    'this side once per pair' % (
+                        label, chains[0], ', '.join(wires),
+                        'Role %s: %s' % (label, descr)),
+                    loc, history="client, pilot.0000 (agent_0 and one %s "
+                    "session), pilot.0001: {'cmd': ..., 'fwd': True} "
+                    "published on pilot.0000 is delivered 2 times to the "
+                    "client and to pilot.0001; published on the client it is "
+                    "delivered 2 times on pilot.0000" % label)
+    # nobody outside Session wires what the session wires itself
+    sess = prog.cls(*SESS)
+    names = {cw.name} | {fn.name for _, ip in runs.values()
+                         for _, fn, _ in ip.sites.values()
+                         if not fn.name.startswith('__')}
+    ext = 0
+    for m in prog.modules.values():
+        for k in list(m.classes.values()) + [None]:
+            funcs = (k.methods if k is not None else m.funcs).values()
+            if k is sess:
+                continue
+            for f in funcs:
+                for c in calls_in(f.node, nested=True):
+                    if not isinstance(c.func, ast.Attribute) or \
+                            c.func.attr not in names:
+                        continue
+                    recv = c.func.value
+                    if isinstance(recv, ast.Name) and recv.id == 'self' and \
+                            (k is None or prog.find_method(k, c.func.attr)
+                             is not None):
+                        continue            # a method of its own class
+                    ext += 1
+                    if c.func.attr == cw.name:
+                        vals = [prog.fold(m, kwarg(c, pn, i), k)
+                                if kwarg(c, pn, i) is not None else UNKNOWN
+                                for i, pn in enumerate(('src', 'tgt'))]
+                        if any(v is UNKNOWN for v in vals):
+                            raise AnalysisError(
+                                'UNRECOGNISED-IDIOM %s: channels of %s are '
+                                'not constants' % (f.where, short(c)))
+                        dup = tuple(vals) in wired_once
+                    else:
+                        dup = True
+                    rep.check(not dup, rid, f, '%s wires channels the '
+                              'session does not wire itself' % short(c, 40),
+                              construct='external %s' % c.func.attr,
+                              message='%s calls %s: the primary / agent_0 '
+                              'session has wired these pubsubs to the proxy '
+                              'in its constructor already; every further call '
+                              'adds a second forwarder pair on the same '
+                              'bridges: forwarded messages are delivered '
+                              'twice' % (f.qual, short(c, 60)),
+                              loc=f.loc(c),
+                              history='any message with fwd=True published '
+                              'after %s ran is delivered 2 times on every '
+                              'other side' % f.qual)
+    rep.stat('external_wiring_calls', ext)
+
+
+# ------------------------------------------------------------------------------
 #
 def run(prog, rep, tier):
     rep.decided = ('the forwarder callback of Session.crosswire_pubsub '
@@ -836,10 +1380,16 @@ def run(prog, rep, tier):
         'the forwarder subscribes on src / publishes on tgt; control and '
         'state pubsub are wired to their PROXY_ twins in both directions '
         'with from_proxy true exactly on the PROXY_ source; the side '
-        'identity is written once; default forward flags of advance() and '
-        'the forward flag of cancel requests.')
+        'identity is written once; it differs between the agent_0 sessions '
+        'of two pilots and from the identity of the primary session (value '
+        'interpretation of Session.__init__ per role and side); on every '
+        'path through the construction of a primary / agent_0 session each '
+        'directed (pubsub, PROXY_ twin) pair is wired exactly once, sessions '
+        'of every other role wire nothing, nobody outside Session wires '
+        'these pairs; default forward flags of advance() and the forward '
+        'flag of cancel requests.')
     rep.undecided = ('delivery by the zmq bridges and the proxy (trusted); '
-        'that RP_PILOT_ID differs between sides; which other messages should '
+        'that the pilot ids handed to the agents differ; which other messages should '
         'carry the forward flag (policy, listed as information in the '
         'thorough tier).')
     rep.assumptions = [
@@ -849,13 +1399,24 @@ def run(prog, rep, tier):
         'from_proxy (log level switches) do not influence the outcome: both '
         'branches are followed and must agree',
         'PROXY_<X> names the proxy twin of channel <X> in constants.py',
+        'RP_PILOT_ID is exported with the pilot id in the environment of '
+        'every agent process (bootstrap_0.sh) and is not set in the client '
+        'application; cfg.pid of an agent session is the pilot id; the '
+        'session id is the same on all sides',
+        'per side there is one primary (client) resp. one agent_0 (pilot) '
+        'session and any number of agent_n / client / default sessions, all '
+        'using the bridges and the identity of their side',
         'clearing the forward flag before the put is defence in depth (the '
         'origin test alone prevents re-forwarding) and reported as '
         'information only',
     ]
-    r16_1(prog, rep)
-    r16_2(prog, rep)
-    r16_3(prog, rep, tier=tier)
+    rep.attempt(r16_1, prog, rep)
+    rep.attempt(r16_2, prog, rep)
+    rep.attempt(r16_3, prog, rep, tier=tier)
+    sides = rep.attempt(_side_runs, prog, rep)
+    if sides is not None:
+        rep.attempt(r16_4, prog, rep, sides)
+        rep.attempt(r16_5, prog, rep, sides)
 
 
 # ------------------------------------------------------------------------------
@@ -979,6 +1540,78 @@ SILENT = [
         (_T, "        self.publish(rpc.CONTROL_PUBSUB, {'cmd' : 'cancel_tasks',\n                                          'arg' : {'uids' : uids,\n                                                   'tmgr' : self.uid},\n                                          'fwd' : True})",
              "        req = {'cmd' : 'cancel_tasks',\n               'fwd' : True,\n               'arg' : {'uids' : uids, 'tmgr' : self.uid}}\n        self.publish(rpc.CONTROL_PUBSUB, req)")]),
 ]
+
+# ------------------------------------------------------------------------------
+# R16.4 / R16.5 variants
+#
+_MOD = "        self._module = os.environ.get('RP_PILOT_ID', 'client')\n"
+_ROLE_ASSERT = "        assert self._role in [self._PRIMARY, self._AGENT_0]\n\n        self.crosswire_pubsub(src=rpc.CONTROL_PUBSUB,"
+_ROLE_ASSERT_N = "        assert self._role in [self._PRIMARY, self._AGENT_0, self._AGENT_N]\n\n        self.crosswire_pubsub(src=rpc.CONTROL_PUBSUB,"
+_A0_WIRE = "        self._start_components()\n        self._crosswire_proxy()\n\n        self._reg.dump(self._role)\n"
+_AN_TAIL = "        self._cfg.components = ru.Config(cfg=a_cfg.get('components', {}))\n\n        self._start_components()\n"
+_HELPER_AT = "    # ----------------------------------------------------------------------\n    def crosswire_pubsub(self, src, tgt, from_proxy):\n"
+
+MUTATIONS += [
+    dict(name='R16.4 seed C16-c: side identity derived from the session role', rules=('R16.4',), edits=[
+        (_S, _MOD, "        if self._role in [self._AGENT_0, self._AGENT_N]:\n            self._module = 'agent'\n        else:\n            self._module = 'client'\n")]),
+    dict(name='R16.4 side identity is a conditional expression over the role', rules=('R16.4',), edits=[
+        (_S, _MOD, "        self._module = 'client' if self._role == self._PRIMARY else 'agent'\n")]),
+    dict(name='R16.4 side identity taken from the session id', rules=('R16.4',), edits=[
+        (_S, _MOD, "        self._module = self._uid or 'client'\n")]),
+    dict(name='R16.4 role derived identity computed in a new helper', rules=('R16.4',), edits=[
+        (_S, _MOD, "        self._module = self._module_scope()\n"),
+        (_S, _HELPER_AT, "    def _module_scope(self):\n\n        if self._role == self._PRIMARY:\n            return 'client'\n        return 'pilot'\n\n\n" + _HELPER_AT)]),
+    dict(name='R16.4 environment only consulted for its presence', rules=('R16.4',), edits=[
+        (_S, _MOD, "        self._module = 'pilot' if 'RP_PILOT_ID' in os.environ else 'client'\n")]),
+    dict(name='R16.5 seed C16-d: sub-agent sessions also wire the proxy', rules=('R16.5',), edits=[
+        (_S, _AN_TAIL, _AN_TAIL + "\n        # components of sub-agents also talk to the client\n        self._crosswire_proxy()\n"),
+        (_S, _ROLE_ASSERT, _ROLE_ASSERT_N)]),
+    dict(name='R16.5 sub-agent wiring added in the role dispatch of __init__', rules=('R16.5',), edits=[
+        (_S, "        elif self._role == self._AGENT_N: self._init_agent_n()\n", "        elif self._role == self._AGENT_N:\n            self._init_agent_n()\n            self._crosswire_proxy()\n"),
+        (_S, _ROLE_ASSERT, _ROLE_ASSERT_N)]),
+    dict(name='R16.5 component sessions wire the proxy', rules=('R16.5',), edits=[
+        (_S, "        assert self._role == self._DEFAULT\n\n        self._connect_registry()\n        self._init_cfg_from_registry()\n",
+             "        assert self._role == self._DEFAULT\n\n        self._connect_registry()\n        self._init_cfg_from_registry()\n        self._crosswire_proxy()\n"),
+        (_S, _ROLE_ASSERT, "        assert self._role in [self._PRIMARY, self._AGENT_0, self._DEFAULT]\n\n        self.crosswire_pubsub(src=rpc.CONTROL_PUBSUB,")]),
+    dict(name='R16.5 agent_0 wires a second time after the registry dump', rules=('R16.5',), edits=[
+        (_S, _A0_WIRE, "        self._start_components()\n        self._crosswire_proxy()\n\n        self._reg.dump(self._role)\n        self._crosswire_proxy()\n")]),
+    dict(name='R16.5 agent_0 no longer wires the proxy', rules=('R16.5',), edits=[
+        (_S, _A0_WIRE, "        self._start_components()\n\n        self._reg.dump(self._role)\n")]),
+    dict(name='R16.5 role assertion of the wiring rejects agent_0', rules=('R16.5',), edits=[
+        (_S, _ROLE_ASSERT, "        assert self._role == self._PRIMARY\n\n        self.crosswire_pubsub(src=rpc.CONTROL_PUBSUB,")]),
+    dict(name='R16.5 pilot manager wires the proxy again', rules=('R16.5',), edits=[
+        (_P, "        assert session._role == session._PRIMARY, 'pmgr needs primary session'\n",
+             "        assert session._role == session._PRIMARY, 'pmgr needs primary session'\n        session._crosswire_proxy()\n")]),
+]
+
+SILENT += [
+    dict(name='side identity: environment lookup hoisted into a local', edits=[
+        (_S, _MOD, "        pilot_id = os.environ.get('RP_PILOT_ID')\n        self._module = 'client' if pilot_id is None else pilot_id\n")]),
+    dict(name='side identity: membership test and subscript', edits=[
+        (_S, _MOD, "        if 'RP_PILOT_ID' not in os.environ:\n            self._module = 'client'\n        else:\n            self._module = os.environ['RP_PILOT_ID']\n")]),
+    dict(name='side identity: os.getenv', edits=[
+        (_S, _MOD, "        self._module = os.getenv('RP_PILOT_ID', default='client')\n")]),
+    dict(name='side identity: lookup extracted into a helper method', edits=[
+        (_S, _MOD, "        self._module = self._module_scope()\n"),
+        (_S, _HELPER_AT, "    def _module_scope(self):\n\n        return os.environ.get('RP_PILOT_ID', 'client')\n\n\n" + _HELPER_AT)]),
+    dict(name='side identity: assigned before the registry address is checked', edits=[
+        (_S, _MOD, ""),
+        (_S, "        if _reg_addr:\n\n            if self._cfg.reg_addr:", _MOD + "\n        if _reg_addr:\n\n            if self._cfg.reg_addr:")]),
+    dict(name='wiring: agent_0 wires after the registry dump', edits=[
+        (_S, _A0_WIRE, "        self._start_components()\n\n        self._reg.dump(self._role)\n        self._crosswire_proxy()\n")]),
+    dict(name='wiring: reached through an extracted helper', edits=[
+        (_S, "        # crosswire local channels and proxy channels\n        self._crosswire_proxy()\n", "        self._hook_proxy()\n"),
+        (_S, _A0_WIRE, "        self._start_components()\n        self._hook_proxy()\n\n        self._reg.dump(self._role)\n"),
+        (_S, _HELPER_AT, "    def _hook_proxy(self):\n\n        # crosswire local channels and proxy channels\n        self._crosswire_proxy()\n\n\n" + _HELPER_AT)]),
+    dict(name='wiring: role assertion as a disjunction', edits=[
+        (_S, _ROLE_ASSERT, "        assert self._role == self._PRIMARY or self._role == self._AGENT_0\n\n        self.crosswire_pubsub(src=rpc.CONTROL_PUBSUB,")]),
+    dict(name='wiring: role guard raises instead of asserting', edits=[
+        (_S, _ROLE_ASSERT, "        if self._role not in (self._PRIMARY, self._AGENT_0):\n            raise RuntimeError('no proxy wiring for %s' % self._role)\n\n        self.crosswire_pubsub(src=rpc.CONTROL_PUBSUB,")]),
+    dict(name='wiring: role dispatch of __init__ with nested if', edits=[
+        (_S, "        if   self._role == self._PRIMARY: self._init_primary()\n        elif self._role == self._AGENT_0: self._init_agent_0()\n        elif self._role == self._AGENT_N: self._init_agent_n()\n        elif self._role == self._CLIENT : self._init_client()\n        else                            : self._init_default()\n",
+             "        role = self._role\n        if role in (self._PRIMARY, self._AGENT_0):\n            if role == self._AGENT_0:\n                self._init_agent_0()\n            else:\n                self._init_primary()\n        elif role == self._AGENT_N:\n            self._init_agent_n()\n        elif role == self._CLIENT:\n            self._init_client()\n        else:\n            self._init_default()\n")]),
+]
+
 
 from .c14 import corpus_variants          # noqa: E402
 SILENT += corpus_variants('C16')
